@@ -194,9 +194,9 @@ def tlc_design(chk, tier, configs):
            mk(kind="repeating", restartOn=(), entry="engine")]
     for i, c in enumerate(wit):
         c["id"] = i
-    write_mc_module("Restart_mcw", wit)
+    write_mc_module("Restart_mcw_%s" % tier, wit)
     for d in DEVIATIONS:
-        r = run_tlc("Restart_mcw", design_cfg("Restart_dev_%s" % d, "MCDev_%s" % d, 9, False), expect_violation=True,
+        r = run_tlc("Restart_mcw_%s" % tier, design_cfg("Restart_dev_%s_%s" % (d, tier), "MCDev_%s" % d, 9, False), expect_violation=True,
                     timeout=300, workers=1)
         if r["violated"] != DEV_INVARIANT[d]:
             raise MachineryError("deviation %s: TLC was expected to violate %s, got %r\n%s" % (
@@ -341,17 +341,75 @@ def group_worlds(configs):
     return groups
 
 
-def replay_edges(chk, configs, edges, scratch):
+class Collector:
+    """What a worker process has to tell the Check object of the parent (same calls, applied later in a fixed order)."""
+
+    def __init__(self):
+        self.stats = {"edges": 0, "tours": 0, "steps": 0, "blocked": 0}
+        self.evaluated_n = {}     # cfg id -> number of distinct edges executed
+        self.reports, self.samples, self.tours = [], [], 0
+
+    def evaluated(self, key):
+        self.evaluated_n[key[0]] = self.evaluated_n.get(key[0], 0) + 1
+
+    def trace_validated(self, n=1):
+        self.tours += n
+
+    def sample(self, obj, limit=4):
+        if len(self.samples) < limit:
+            self.samples.append(obj)
+
+
+_SHARED = {}      # edges / scratch for the forked workers (inherited, not pickled)
+
+
+def _replay_chunk(job):
+    idx, default_hook, cfgs = job
     from .. import world_c12 as W
-    stats = {"edges": 0, "tours": 0, "steps": 0, "blocked": 0}
+    col = Collector()
+    sub = os.path.join(_SHARED["scratch"], "chunk%03d" % idx)
+    os.makedirs(sub, exist_ok=True)
+    world = W.World(sub, cfgs, default_hook)
+    try:
+        for cfg in cfgs:
+            replay_config(col, world, W, cfg, _SHARED["edges"][cfg["id"]], col.stats)
+    finally:
+        world.close()
+    return col
+
+
+def replay_edges(chk, configs, edges, scratch):
+    """All edges of all configurations on the real code.  The configurations are independent: they are spread over forked
+    worker processes (each builds its own real Experiment); the results are applied to the Check in the order of the chunks."""
+    import multiprocessing
+    from .. import world_c12 as W      # import the runtime before forking
+    W.install()
+    jobs = []
     for (sim, default_hook), cs in sorted(group_worlds(configs).items()):
-        for lo in range(0, len(cs), 120):
-            world = W.World(scratch, cs[lo:lo + 120], default_hook)
-            try:
-                for cfg in cs[lo:lo + 120]:
-                    replay_config(chk, world, W, cfg, edges[cfg["id"]], stats)
-            finally:
-                world.close()
+        size = 12 if len(configs) < 200 else 40
+        for lo in range(0, len(cs), size):
+            jobs.append((len(jobs), default_hook, cs[lo:lo + size]))
+    _SHARED.update(edges=edges, scratch=scratch)
+    nproc = max(1, min(8, (os.cpu_count() or 2) // 2, len(jobs)))
+    if nproc > 1:
+        ctx = multiprocessing.get_context("fork")
+        with ctx.Pool(nproc) as pool:
+            cols = pool.map(_replay_chunk, jobs, chunksize=1)
+    else:
+        cols = [_replay_chunk(j) for j in jobs]
+    stats = {"edges": 0, "tours": 0, "steps": 0, "blocked": 0}
+    for col in cols:
+        for k in stats:
+            stats[k] += col.stats[k]
+        for cid, n in sorted(col.evaluated_n.items()):
+            for i in range(n):
+                chk.evaluated(("edge", cid, i))
+        chk.trace_validated(col.tours)
+        for smp in col.samples:
+            chk.sample(smp, limit=4)
+        for key, what, rp in col.reports:
+            report(chk, key, what, rp)
+    stats["worker_processes"] = nproc
     return stats
 
 
@@ -376,7 +434,7 @@ def replay_config(chk, world, W, cfg, es, stats):
         stats["tours"] += 1
         inst = W.Instance(world, cfg["id"])
         path = []
-        for i in tour:
+        for n, i in enumerate(tour):
             e = es[i]
             runs_before = inst.runs
             obs = do_step(inst, e["ev"])
@@ -386,16 +444,16 @@ def replay_config(chk, world, W, cfg, es, stats):
             uncovered.discard(i)
             if first:
                 stats["edges"] += 1
-                chk.evaluated((cfg_key(cfg), skey(e["pre"]), e["ev"]["act"], e["ev"]["reason"], e["ev"]["answer"]))
+                chk.evaluated((cfg["id"], i))
             bad = compare(cfg, e, obs, runs_before)
             if bad:
                 blocked.add(i)
-                report(chk, step_class(cfg, e),
+                chk.reports.append((step_class(cfg, e),
                               "%s; after %s the step %s(%s%s) from %s: %s" % (
                                   describe(cfg), brief(path[:-1]), e["ev"]["act"], e["ev"]["reason"],
                                   "" if e["ev"]["answer"] == "na" else ", hook answers " + e["ev"]["answer"],
                                   e["pre"], "; ".join(bad)),
-                              {"kind": "edge-path", "cfg": cfg, "path": [es[j] for j in tour[:tour.index(i) + 1]]})
+                              {"kind": "edge-path", "cfg": cfg, "path": [es[j] for j in tour[:n + 1]]}))
                 break
         chk.trace_validated(1)
     if stats["tours"] % 50 == 1:
@@ -655,7 +713,7 @@ def random_traces(chk, tier, configs, scratch):
     cfg, steps = next((c, s) for c, s in traces if len(s) >= 4)
     bad = [dict(x) for x in steps]
     bad[2]["restarts"] += 1
-    v = validate_traces(chk, tier, [(cfg, bad)], name="Restart_traces_selftest")[0]
+    v = validate_traces(chk, tier, [(cfg, bad)], name="Restart_traces_selftest_%s" % tier)[0]
     if v["explained"] != 2:
         raise MachineryError("self-test: a corrupted trace was accepted up to step %d (expected rejection at 3)" % v["explained"])
     chk.sample({"recorded_run": brief_steps(traces[0][1]), "cfg": describe(traces[0][0])}, limit=6)
